@@ -99,10 +99,16 @@ class Contract:
         self.note = d.get("note", "")
         self.is_property = d.get("property", False)
         self.bind = d.get("bind", {})             # extra name -> expr bindings available in the spec
+        self.defaults = d.get("defaults", {})     # parameter defaults (must equal the source's; checked structurally)
+        self.inv_exclude_pre = d.get("inv_exclude_pre", [])   # invariant clauses (by name prefix) not needed at entry
         self.assume_entry = d.get("assume_entry", {})
         self.ctor = d.get("ctor", False)          # constructor: invariant asserted at exit only
         self.ghost_exit = d.get("ghost_exit", {}) # ghost assignments executed at every normal exit
         self.check_frame = d.get("check_frame", True)
+        self.site_asserts_for = d.get("site_asserts_for", {})      # caller's receiver class -> extra site assertions
+        self.ensures_for_caller = d.get("ensures_for_caller", {})  # caller's receiver class -> extra assumed ensures
+        self.requires_for = d.get("requires_for", {})   # receiver class -> extra requires (usage assumptions)
+        self.ensures_for = d.get("ensures_for", {})     # receiver class -> extra ensures
 
 
 class Ctx:
@@ -121,6 +127,7 @@ class Ctx:
         self.dyn_getattr = {}   # function qualname -> contract name for getattr with computed names
         self.event_calls = {}   # "logger.warning" -> contract name (calls that are otherwise dropped)
         self.structural = []
+        self.macros = {}
 
     def source(self, relpath):
         if relpath not in self.sources:
@@ -152,6 +159,9 @@ class Ctx:
         self.noop_calls |= set(getattr(mod, "NOOP_CALLS", []))
         self.dyn_getattr.update(getattr(mod, "DYN_GETATTR", {}))
         self.event_calls.update(getattr(mod, "EVENT_CALLS", {}))
+        for sig, body in getattr(mod, "MACROS", {}).items():
+            call = ast.parse(sig, mode="eval").body
+            self.macros[call.func.id] = ([a.id for a in call.args], ast.parse(body.strip(), mode="eval").body)
         self.structural += list(getattr(mod, "STRUCTURAL", []))
 
     # ---- class table helpers
@@ -189,11 +199,11 @@ class Ctx:
             out.update(self.classes.get(c, {}).get("alias", {}))
         return out
 
-    def invariants(self, cls):
+    def invariants(self, cls, exclude=()):
         out = {}
         for c in reversed(self.mro(cls)):
             out.update(self.classes.get(c, {}).get("invariant", {}))
-        return out
+        return {k: v for k, v in out.items() if not any(k.startswith(x) for x in exclude)}
 
 
 # =================================================================================================
@@ -227,6 +237,23 @@ class State:
     def assume(self, f):
         if not z3.is_true(f):
             self.pc.append(f)
+
+
+_QCACHE = {}
+
+
+def has_quantifier(f):
+    k = f.get_id()
+    r = _QCACHE.get(k)
+    if r is None:
+        if z3.is_quantifier(f):
+            r = True
+        elif z3.is_app(f):
+            r = any(has_quantifier(c) for c in f.children())
+        else:
+            r = False
+        _QCACHE[k] = r
+    return r
 
 
 class Obligation:
@@ -265,7 +292,7 @@ class Task:
         self.paths = 0
         self.feas_checks = 0
         self.solver = z3.SolverFor("ALL") if False else z3.Solver()
-        self.solver.set("timeout", int(self.opts.get("feas_timeout_ms", 3000)))
+        self.solver.set("timeout", int(self.opts.get("feas_timeout_ms", 1000)))
         self.solver.set("smt.mbqi", False)   # unknown (quantifiers) counts as feasible
         self.loop_ordinals = {}
         k = 0
@@ -283,7 +310,8 @@ class Task:
         self.solver.push()
         try:
             for f in st.pc:
-                self.solver.add(f)
+                if not has_quantifier(f):     # quantified facts are only needed to *prove* things; dropping them here
+                    self.solver.add(f)        # can only make more paths look feasible (sound, obligations keep the full pc)
             if extra is not None:
                 self.solver.add(extra)
             r = self.solver.check()
@@ -420,6 +448,10 @@ class Task:
                 continue
             sort = parse_sort(s)
             st.locals[n] = V(sort, [z3.Const(f"{n}.{k}", cs) for k, cs in enumerate(sort.comps())])
+            us = sort.inner if isinstance(sort, OptSort) else sort
+            if isinstance(us, UnionSort):
+                uc = st.locals[n].comps[1:] if isinstance(sort, OptSort) else st.locals[n].comps
+                st.assume(z3.Implies(uc[0], uc[2] != null))   # an object alternative of a union is a real object
         if args.vararg or args.kwarg:
             self.dropped.add("*args/**kwargs parameters (not modelled)")
         for name, f in self.ctx.axioms:
@@ -431,9 +463,11 @@ class Task:
                 for k, t in self.ctx.classes.get(cn, {}).get("wf", {}).items():
                     st.assume(self.spec_bool(st, t, env, self_cls=self.receiver))
             if c.inv and not c.ctor:
-                for k, t in self.ctx.invariants(self.receiver).items():
+                for k, t in self.ctx.invariants(self.receiver, c.inv_exclude_pre).items():
                     st.assume(self.spec_bool(st, t, env, self_cls=self.receiver))
         for k, t in c.requires.items():
+            st.assume(self.spec_bool(st, t, env, self_cls=self.receiver))
+        for k, t in c.requires_for.get(self.receiver, {}).items():
             st.assume(self.spec_bool(st, t, env, self_cls=self.receiver))
         for k, t in c.assume_entry.items():
             st.assume(self.spec_bool(st, t, env, self_cls=self.receiver))
@@ -479,7 +513,7 @@ class Task:
                     st.globals[tgt] = coerce(val, self.ctx.globals[tgt])
             if c.check_frame:
                 self.frame_obligations(st, env)
-            for k, t in c.ensures.items():
+            for k, t in list(c.ensures.items()) + list(c.ensures_for.get(self.receiver, {}).items()):
                 self.oblige(st, f"{self.label}: ensures {k}", self.spec_bool(st, t, env, self.old, self.receiver), "ensures")
             if c.inv and self.receiver:
                 for k, t in self.ctx.invariants(self.receiver).items():
@@ -493,7 +527,7 @@ class Task:
             for k, t in c.ensures_raise.items():
                 self.oblige(st, f"{self.label}: on raise {k}", self.spec_bool(st, t, env, self.old, self.receiver), "ensures_raise")
             if c.inv and c.inv_on_raise and self.receiver:
-                for k, t in self.ctx.invariants(self.receiver).items():
+                for k, t in self.ctx.invariants(self.receiver, c.inv_exclude_pre).items():
                     self.oblige(st, f"{self.label}: invariant {k} at raise", self.spec_bool(st, t, env, self.old, self.receiver), "invariant")
         else:
             raise Unsupported(f"{self.label}: {o.kind} outside a loop")
@@ -516,7 +550,7 @@ class Task:
                 prev_old = self.spec(st, f"old({ox})", env, self.old, self.receiver)
                 d = self.ctx.field_decl(prev_old.sort.cls, f)
                 if d is None:
-                    raise Unsupported(f"modifies {m}: undeclared field")
+                    continue   # field of a subclass that this receiver does not have
                 per_obj.setdefault((d[0], f), []).append(prev_old.z)
             else:
                 globs.add(m)
@@ -897,7 +931,7 @@ class Task:
                 obj = self.spec(st, objx, env, self_cls=env.get("__self_cls__"))
                 d = self.ctx.field_decl(obj.sort.cls, f)
                 if d is None:
-                    raise Unsupported(f"modifies {m}: field not declared")
+                    continue   # field of a subclass that this receiver does not have
                 self.havoc_field(st, d[0], f, obj)
             else:
                 if m not in self.ctx.globals:
@@ -1160,6 +1194,9 @@ class Task:
             d = self.ctx.field_decl(cls, attr)
             if d is not None:
                 self.safety_nonnull(st, obj, node)
+                if self.ctx.field_decl(cls, f"?{attr}") is not None:
+                    self.oblige(st, f"{self.label}: safety: attribute .{attr} exists on the {cls} object (line +{node.lineno - self.fn.lineno})",
+                                self.read_field(st, obj, f"?{attr}").z, "safety", node.lineno)
                 return [(st, self.read_field(st, obj, attr), None)]
             m = self.ctx.find_method(cls, attr)
             if m:
@@ -1172,6 +1209,10 @@ class Task:
                 return [(st, cv, None)]
             raise Unsupported(f"attribute {cls}.{attr} is neither a declared field nor a contracted method "
                               f"(contract/code mismatch, line {node.lineno})")
+        if isinstance(obj, V) and isinstance(obj.sort, UnionSort):
+            self.oblige(st, f"{self.label}: safety: .{attr} read on a str-or-{obj.sort.cls} value that is a {obj.sort.cls} here (line +{node.lineno - self.fn.lineno})",
+                        obj.comps[0], "safety", node.lineno)
+            return self.get_attr(st, V(RefSort(obj.sort.cls), [obj.comps[2]]), attr, node)
         if isinstance(obj, VFunc) and attr == "__func__":
             return [(st, obj, None)]
         raise Unsupported(f"attribute .{attr} of {obj} (line {node.lineno})")
@@ -1236,6 +1277,8 @@ class Task:
                 return [(s, acc, None)]
             out = []
             pure = _is_pure(node.values[k])
+            if z3.is_false(z3.simplify(acc)):
+                return [(s, acc, None)]
             if pure:
                 s.guards.append(acc_guard(acc))
                 try:
@@ -1419,6 +1462,10 @@ class Task:
                         z3.And(i.z >= 0, i.z < cont.comps[0]), "safety", node.lineno)
             return [(st, seq_get(cont, i.z), None)]
         if isinstance(cont, V) and isinstance(cont.sort, MapSort):
+            if isinstance(idx, V) and isinstance(idx.sort, UnionSort) and cont.sort.key == STR:
+                self.oblige(st, f"{self.label}: safety: dict key is a str here (line +{node.lineno - self.fn.lineno})",
+                            z3.Not(idx.comps[0]), "safety", node.lineno)
+                idx = vstr(idx.comps[1])
             k = coerce(idx, cont.sort.key)
             has = map_has(cont, k)
             res = []
@@ -1567,10 +1614,9 @@ class Task:
             env[k] = v
         for n in names:
             if n not in env:
-                d = c.bind.get(f"default:{n}")
-                if d is None:
+                if n not in c.defaults:
                     raise Unsupported(f"{c.name}: argument {n} missing and no default in the contract (line {getattr(node, 'lineno', '?')})")
-                env[n] = const_value(d[0]) if isinstance(d, tuple) else const_value(d)
+                env[n] = const_value(c.defaults[n])
             s = c.params[n]
             if s != "py" and isinstance(env[n], V):
                 ps = parse_sort(s)
@@ -1579,7 +1625,15 @@ class Task:
                         self.oblige(st, f"{self.label}: safety: argument {n} of {c.name} is not None (line +{getattr(node, 'lineno', self.fn.lineno) - self.fn.lineno})",
                                     z3.Not(env[n].comps[0]), "safety", getattr(node, "lineno", None))
                     env[n] = V(env[n].sort.inner, env[n].comps[1:])
-                env[n] = coerce(env[n], ps)
+                if isinstance(env[n].sort, UnionSort) and ps == STR:
+                    if st is not None:
+                        self.oblige(st, f"{self.label}: safety: argument {n} of {c.name} is a str here (line +{getattr(node, 'lineno', self.fn.lineno) - self.fn.lineno})",
+                                    z3.Not(env[n].comps[0]), "safety", getattr(node, "lineno", None))
+                    env[n] = vstr(env[n].comps[1])
+                if isinstance(ps, RefSort) and isinstance(env[n].sort, RefSort) and ps.cls in self.ctx.mro(env[n].sort.cls):
+                    pass    # keep the actual (more specific) class of the argument
+                else:
+                    env[n] = coerce(env[n], ps)
             elif s != "py" and isinstance(env[n], VPyTuple):
                 env[n] = coerce(vtuple(env[n].items), parse_sort(s))
         return env
@@ -1591,9 +1645,9 @@ class Task:
         env["__self_cls__"] = self_cls
         ln = getattr(node, "lineno", self.fn.lineno) - self.fn.lineno
         where = f"{self.label}: call {c.name} (line +{ln})"
-        for k, t in c.requires.items():
+        for k, t in list(c.requires.items()) + list(c.requires_for.get(self_cls, {}).items()):
             self.oblige(st, f"{where} requires {k}", self.spec_bool(st, t, env, None, self_cls), "requires", getattr(node, "lineno", None))
-        for k, t in c.site_asserts.items():
+        for k, t in list(c.site_asserts.items()) + list(c.site_asserts_for.get(self.receiver, {}).items()):
             self.oblige(st, f"{k} @ {where}", self.spec_bool(st, t, env, self.old, self_cls), "site", getattr(node, "lineno", None))
         for ox in c.assert_inv_of:
             o = self.spec(st, ox, env, None, self_cls)
@@ -1601,7 +1655,7 @@ class Task:
                 self.oblige(st, f"{where} invariant {k} of {ox} before call", self.spec_bool(st, t, {"self": o}, self.old, o.sort.cls), "invariant", getattr(node, "lineno", None))
         if c.inv and not c.ctor and self_v is not None and c.kind == "repo":
             # re-entrant call of a method of the same object: its invariant is a precondition
-            for k, t in self.ctx.invariants(self_cls).items():
+            for k, t in self.ctx.invariants(self_cls, c.inv_exclude_pre).items():
                 self.oblige(st, f"{where} invariant {k} before call", self.spec_bool(st, t, {"self": self_v}, self.old, self_cls), "invariant", getattr(node, "lineno", None))
         pre = st.snapshot()
         res = []
@@ -1618,7 +1672,9 @@ class Task:
                 else:
                     r = VNONE
                 e2["result"] = r
-                clauses = c.ensures
+                clauses = dict(c.ensures)
+                clauses.update(c.ensures_for.get(self_cls, {}))
+                clauses.update(c.ensures_for_caller.get(self.receiver, {}))
             else:
                 clauses = c.ensures_raise
             for k, t in clauses.items():
@@ -1731,6 +1787,13 @@ class Task:
             tname = ast.unparse(tn)
             if isinstance(obj, V) and obj.sort == BOOL and tname == "bool":
                 res.append((s2, vbool(True), None)); continue
+            if isinstance(obj, V) and isinstance(obj.sort, UnionSort):
+                if tname == obj.sort.cls:
+                    res.append((s2, vbool(obj.comps[0]), None)); continue
+                if tname == "str":
+                    res.append((s2, vbool(z3.Not(obj.comps[0])), None)); continue
+            if isinstance(obj, V) and obj.sort == STR and tname not in ("str",):
+                res.append((s2, vbool(False), None)); continue
             if isinstance(obj, V) and isinstance(obj.sort, RefSort):
                 for s3, tv, e3 in self.ev(tn, s2):
                     if e3 is not None:
@@ -2007,6 +2070,31 @@ class SpecEval:
             fs = [self.t.spec_bool(self.st, t, {"self": o}, self.old if self.in_old else None, o.sort.cls)
                   for t in self.t.ctx.invariants(o.sort.cls).values()]
             return vbool(z3.And(*fs) if fs else z3.BoolVal(True))
+        if name == "has_attr":
+            return self.t.read_field(self.st, self.ev(n.args[0]), "?" + n.args[1].value,
+                                     self.old[0] if (self.in_old and self.old) else None)
+        if name == "cast":
+            o = self.ev(n.args[0])
+            return V(RefSort(n.args[1].value), o.comps)
+        if name == "is_obj":
+            return vbool(self.ev(n.args[0]).comps[0])
+        if name == "as_obj":
+            u = self.ev(n.args[0])
+            return V(RefSort(u.sort.cls), [u.comps[2]])
+        if name == "as_str":
+            return vstr(self.ev(n.args[0]).comps[1])
+        if name == "unwrap":
+            o = self.ev(n.args[0])
+            return V(o.sort.inner, o.comps[1:]) if isinstance(o.sort, OptSort) else o
+        if name in self.t.ctx.macros:
+            params, body = self.t.ctx.macros[name]
+            args = [self.ev(a) for a in n.args]
+            saved = dict(self.bound)
+            self.bound.update(dict(zip(params, args)))
+            try:
+                return self.ev(body)
+            finally:
+                self.bound = saved
         if name in self.t.ctx.spec_funcs:
             args = [self.ev(a) for a in n.args]
             return self.t.ctx.spec_funcs[name](*args)
